@@ -219,6 +219,29 @@ impl Atoms {
 pub struct OverBudget;
 pub type Res<T> = Result<T, OverBudget>;
 
+/// Budget of one reference construction: a bound on the states of any intermediate automaton and a bound on
+/// the total work (state x atom cells produced). Both are deterministic; exceeding either only skips the case.
+pub struct Bud {
+    pub states: usize,
+    pub max_work: u64,
+    pub work: std::cell::Cell<u64>,
+}
+
+impl Bud {
+    pub fn new(states: usize, max_work: u64) -> Bud {
+        Bud { states, max_work, work: std::cell::Cell::new(0) }
+    }
+    fn spend(&self, n: usize) -> Res<()> {
+        let w = self.work.get() + n as u64;
+        self.work.set(w);
+        if w > self.max_work {
+            Err(OverBudget)
+        } else {
+            Ok(())
+        }
+    }
+}
+
 /// Complete DFA over `a` atoms. State 0.. ; `start` is the initial state.
 #[derive(Clone, Debug)]
 pub struct Dfa {
@@ -269,7 +292,8 @@ impl Dfa {
     }
 
     /// product automaton for union (and=false) or intersection (and=true)
-    pub fn prod(&self, o: &Dfa, and: bool, budget: usize) -> Res<Dfa> {
+    pub fn prod(&self, o: &Dfa, and: bool, bud: &Bud) -> Res<Dfa> {
+        let budget = bud.states;
         let a = self.a;
         assert_eq!(a, o.a);
         let mut idx: HashMap<(u32, u32), u32> = HashMap::new();
@@ -295,12 +319,14 @@ impl Dfa {
             if q.len() > budget {
                 return Err(OverBudget);
             }
+            bud.spend(a + 1)?;
         }
         Ok(Dfa { a, t, f, start: 0 }.minimize())
     }
 
     /// concatenation L(self).L(o): states are (state of self, set of states of o)
-    pub fn cat(&self, o: &Dfa, budget: usize) -> Res<Dfa> {
+    pub fn cat(&self, o: &Dfa, bud: &Bud) -> Res<Dfa> {
+        let budget = bud.states;
         let a = self.a;
         assert_eq!(a, o.a);
         type K = (u32, Vec<u32>);
@@ -326,6 +352,7 @@ impl Dfa {
             for k in 0..a {
                 let nx = self.step(x, k);
                 let ns: Vec<u32> = s.iter().map(|&y| o.step(y, k)).collect();
+                bud.spend(ns.len())?;
                 let key = close(nx, ns);
                 let l = q.len() as u32;
                 let id = match idx.get(&key) {
@@ -341,12 +368,14 @@ impl Dfa {
             if q.len() > budget {
                 return Err(OverBudget);
             }
+            bud.spend(a + 1)?;
         }
         Ok(Dfa { a, t, f, start: 0 }.minimize())
     }
 
     /// Kleene plus by subset construction (re-enter the start state whenever a final state is in the set)
-    pub fn plus(&self, budget: usize) -> Res<Dfa> {
+    pub fn plus(&self, bud: &Bud) -> Res<Dfa> {
+        let budget = bud.states;
         let a = self.a;
         let clo = |mut s: Vec<u32>| {
             if s.iter().any(|&y| self.f[y as usize]) && !s.contains(&self.start) {
@@ -368,6 +397,7 @@ impl Dfa {
             i += 1;
             f.push(s.iter().any(|&y| self.f[y as usize]));
             for k in 0..a {
+                bud.spend(s.len())?;
                 let key = clo(s.iter().map(|&y| self.step(y, k)).collect());
                 let l = q.len() as u32;
                 let id = match idx.get(&key) {
@@ -383,6 +413,7 @@ impl Dfa {
             if q.len() > budget {
                 return Err(OverBudget);
             }
+            bud.spend(a + 1)?;
         }
         Ok(Dfa { a, t, f, start: 0 }.minimize())
     }
@@ -417,6 +448,132 @@ impl Dfa {
             }
             count = m;
         }
+    }
+
+    /// Hopcroft partition refinement over ALL states (same result as moore_classes, O(a n log n))
+    pub fn hopcroft_classes(&self) -> (Vec<u32>, usize) {
+        let n = self.n();
+        let a = self.a;
+        // inverse transitions: for each symbol, predecessors lists in CSR form
+        let mut inv_start = vec![0u32; a * (n + 1)];
+        for s in 0..n {
+            for k in 0..a {
+                inv_start[k * (n + 1) + self.t[s * a + k] as usize + 1] += 1;
+            }
+        }
+        for k in 0..a {
+            for q in 0..n {
+                inv_start[k * (n + 1) + q + 1] += inv_start[k * (n + 1) + q];
+            }
+        }
+        let mut fill = inv_start.clone();
+        let mut inv = vec![0u32; a * n];
+        for s in 0..n {
+            for k in 0..a {
+                let q = self.t[s * a + k] as usize;
+                let pos = fill[k * (n + 1) + q] as usize;
+                inv[k * n + pos] = s as u32;
+                fill[k * (n + 1) + q] += 1;
+            }
+        }
+        // blocks as ranges of a permutation array
+        let mut elems: Vec<u32> = (0..n as u32).collect();
+        let mut loc = vec![0u32; n]; // position of state in elems
+        let mut blk = vec![0u32; n]; // block of state
+        let mut bstart: Vec<u32> = Vec::new();
+        let mut bend: Vec<u32> = Vec::new();
+        // initial split by finality
+        elems.sort_by_key(|&s| self.f[s as usize]);
+        for (i, &s) in elems.iter().enumerate() {
+            loc[s as usize] = i as u32;
+        }
+        let nf = self.f.iter().filter(|&&b| !b).count();
+        if nf > 0 {
+            bstart.push(0);
+            bend.push(nf as u32);
+        }
+        if nf < n {
+            bstart.push(nf as u32);
+            bend.push(n as u32);
+        }
+        for b in 0..bstart.len() {
+            for i in bstart[b]..bend[b] {
+                blk[elems[i as usize] as usize] = b as u32;
+            }
+        }
+        let mut in_work = vec![false; bstart.len()];
+        let mut work: Vec<u32> = Vec::new();
+        // all initial blocks go on the work list (simple and safe)
+        for b in 0..bstart.len() {
+            work.push(b as u32);
+            in_work[b] = true;
+        }
+        let mut marked_count: Vec<u32> = vec![0; bstart.len()];
+        let mut touched: Vec<u32> = Vec::new();
+        while let Some(bw) = work.pop() {
+            in_work[bw as usize] = false;
+            // snapshot of the splitter block's members
+            let members: Vec<u32> = elems[bstart[bw as usize] as usize..bend[bw as usize] as usize].to_vec();
+            for k in 0..a {
+                touched.clear();
+                // mark predecessors: move them to the front of their block
+                for &q in &members {
+                    let lo = inv_start[k * (n + 1) + q as usize] as usize;
+                    let hi = inv_start[k * (n + 1) + q as usize + 1] as usize;
+                    for idx in lo..hi {
+                        let p = inv[k * n + idx];
+                        let b = blk[p as usize] as usize;
+                        let mpos = bstart[b] + marked_count[b];
+                        let ppos = loc[p as usize];
+                        if ppos >= mpos {
+                            // swap p with the first unmarked element
+                            let other = elems[mpos as usize];
+                            elems.swap(mpos as usize, ppos as usize);
+                            loc[p as usize] = mpos;
+                            loc[other as usize] = ppos;
+                            if marked_count[b] == 0 {
+                                touched.push(b as u32);
+                            }
+                            marked_count[b] += 1;
+                        }
+                    }
+                }
+                // split touched blocks
+                for &b in &touched {
+                    let b = b as usize;
+                    let mc = marked_count[b];
+                    marked_count[b] = 0;
+                    let size = bend[b] - bstart[b];
+                    if mc == size {
+                        continue;
+                    }
+                    // new block = the smaller part
+                    let nb = bstart.len();
+                    let (ns, ne) = if mc <= size - mc {
+                        // marked part [bstart, bstart+mc) becomes the new block
+                        let r = (bstart[b], bstart[b] + mc);
+                        bstart[b] += mc;
+                        r
+                    } else {
+                        let r = (bstart[b] + mc, bend[b]);
+                        bend[b] = bstart[b] + mc;
+                        r
+                    };
+                    bstart.push(ns);
+                    bend.push(ne);
+                    marked_count.push(0);
+                    in_work.push(false);
+                    for i in ns..ne {
+                        blk[elems[i as usize] as usize] = nb as u32;
+                    }
+                    // the new block is the smaller half: always sufficient to add it; if the old block is
+                    // pending it stays pending
+                    work.push(nb as u32);
+                    in_work[nb] = true;
+                }
+            }
+        }
+        (blk, bstart.len())
     }
 
     /// number of Moore refinement rounds needed (a measure of how deep distinguishing words are)
@@ -472,7 +629,7 @@ impl Dfa {
     /// minimal complete DFA of the language from `start`; states numbered in BFS order, start = 0
     pub fn minimize(&self) -> Dfa {
         let a = self.a;
-        let (cls, m) = self.moore_classes();
+        let (cls, m) = self.hopcroft_classes();
         let mut rep = vec![usize::MAX; m];
         for s in 0..self.n() {
             if rep[cls[s] as usize] == usize::MAX {
@@ -635,7 +792,11 @@ fn path(seen: &HashMap<(u32, u32), Option<((u32, u32), usize)>>, end: (u32, u32)
 pub struct Engine {
     pub atoms: Atoms,
     pub budget: usize,
+    bud: Rc<Bud>,
+    depth: usize,
     memo: HashMap<*const Ref, Rc<Dfa>>,
+    /// nodes whose own construction used a large share of the work budget and still failed: not retried
+    hard: HashSet<*const Ref>,
     // keep the Rcs alive so that pointers stay unique
     keep: Vec<R>,
     pub built: u64,
@@ -645,7 +806,9 @@ pub struct Engine {
 
 impl Engine {
     pub fn new(atoms: Atoms, budget: usize) -> Engine {
-        Engine { atoms, budget, memo: HashMap::new(), keep: Vec::new(), built: 0, over_budget: 0, max_states: 0 }
+        // work budget per top-level construction: proportional to the state budget
+        let bud = Rc::new(Bud::new(budget, budget as u64 * 400));
+        Engine { atoms, budget, bud, depth: 0, memo: HashMap::new(), hard: HashSet::new(), keep: Vec::new(), built: 0, over_budget: 0, max_states: 0 }
     }
 
     /// make sure all `points` are atom boundaries; if not, refine atoms and drop the memo
@@ -673,6 +836,7 @@ impl Engine {
             cuts.dedup();
             self.atoms = Atoms { lo: cuts };
             self.memo.clear();
+            self.hard.clear();
             self.keep.clear();
         }
         need
@@ -686,11 +850,38 @@ impl Engine {
 
     /// minimal DFA of r over the current atoms (r's ranges must be aligned: call ensure_ref first)
     pub fn dfa(&mut self, r: &R) -> Res<Rc<Dfa>> {
+        if self.depth == 0 {
+            self.bud.work.set(0);
+        }
+        self.depth += 1;
+        let res = self.dfa_rec(r);
+        self.depth -= 1;
+        if res.is_err() && self.depth == 0 {
+            self.over_budget += 1;
+        }
+        res
+    }
+
+    fn dfa_rec(&mut self, r: &R) -> Res<Rc<Dfa>> {
         if let Some(d) = self.memo.get(&Rc::as_ptr(r)) {
             return Ok(d.clone());
         }
+        if self.hard.contains(&Rc::as_ptr(r)) {
+            return Err(OverBudget);
+        }
+        let w0 = self.bud.work.get();
+        let res = self.dfa_node(r);
+        if res.is_err() && self.bud.work.get() - w0 >= self.bud.max_work / 4 {
+            self.hard.insert(Rc::as_ptr(r));
+            self.keep.push(r.clone());
+        }
+        res
+    }
+
+    fn dfa_node(&mut self, r: &R) -> Res<Rc<Dfa>> {
         let a = self.atoms.n();
-        let b = self.budget;
+        let bud = self.bud.clone();
+        let b: &Bud = &bud;
         let d: Dfa = match &**r {
             Ref::None => Dfa::none(a),
             Ref::Eps => Dfa::eps(a),
@@ -702,56 +893,55 @@ impl Engine {
             Ref::Cat(v) => {
                 let mut acc = Dfa::eps(a);
                 for x in v {
-                    let dx = self.dfa(x)?;
-                    acc = self.track(acc.cat(&dx, b))?;
+                    let dx = self.dfa_rec(x)?;
+                    acc = acc.cat(&dx, b)?;
                 }
                 acc
             }
             Ref::Or(v) => {
                 let mut acc = Dfa::none(a);
                 for x in v {
-                    let dx = self.dfa(x)?;
-                    acc = self.track(acc.prod(&dx, false, b))?;
+                    let dx = self.dfa_rec(x)?;
+                    acc = acc.prod(&dx, false, b)?;
                 }
                 acc
             }
             Ref::And(v) => {
                 let mut acc = Dfa::all(a);
                 for x in v {
-                    let dx = self.dfa(x)?;
-                    acc = self.track(acc.prod(&dx, true, b))?;
+                    let dx = self.dfa_rec(x)?;
+                    acc = acc.prod(&dx, true, b)?;
                 }
                 acc
             }
-            Ref::Not(x) => self.dfa(x)?.not(),
+            Ref::Not(x) => self.dfa_rec(x)?.not(),
             Ref::Loop(x, lo, hi) => {
-                let dx = self.dfa(x)?;
+                let dx = self.dfa_rec(x)?;
                 match hi {
                     Some(h) if h < lo => Dfa::none(a),
                     _ => {
                         // r^lo . (r?)^(hi-lo)   or   r^lo . r*
-                        if (*lo as usize) > b || hi.map_or(false, |h| (h - lo) as usize > b) {
-                            self.over_budget += 1;
+                        if (*lo as usize) > b.states || hi.map_or(false, |h| (h - lo) as usize > b.states) {
                             return Err(OverBudget);
                         }
                         let mut acc = Dfa::eps(a);
                         for _ in 0..*lo {
-                            acc = self.track(acc.cat(&dx, b))?;
+                            acc = acc.cat(&dx, b)?;
                         }
                         match hi {
                             None => {
-                                let plus = self.track(dx.plus(b))?;
-                                let star = self.track(Dfa::eps(a).prod(&plus, false, b))?;
-                                self.track(acc.cat(&star, b))?
+                                let plus = dx.plus(b)?;
+                                let star = Dfa::eps(a).prod(&plus, false, b)?;
+                                acc.cat(&star, b)?
                             }
                             Some(h) => {
-                                let opt = self.track(Dfa::eps(a).prod(&dx, false, b))?;
+                                let opt = Dfa::eps(a).prod(&dx, false, b)?;
                                 // (r?)^m built right to left keeps intermediate automata small
                                 let mut tail = Dfa::eps(a);
                                 for _ in *lo..*h {
-                                    tail = self.track(opt.cat(&tail, b))?;
+                                    tail = opt.cat(&tail, b)?;
                                 }
-                                self.track(acc.cat(&tail, b))?
+                                acc.cat(&tail, b)?
                             }
                         }
                     }
@@ -766,13 +956,6 @@ impl Engine {
         self.memo.insert(Rc::as_ptr(r), d.clone());
         self.keep.push(r.clone());
         Ok(d)
-    }
-
-    fn track(&mut self, r: Res<Dfa>) -> Res<Dfa> {
-        if r.is_err() {
-            self.over_budget += 1;
-        }
-        r
     }
 }
 
